@@ -212,6 +212,9 @@ static bool decode_utf8(const vector<UINT8> &in_data, deque<int> &out_data)
          // invalid UTF-8 sequence
          return(false);
       }
+      // smallest value that needs this many continuation bytes
+      static const int min_value[] = { 0, 0x80, 0x800, 0x10000, 0x200000, 0x4000000 };
+      const int        min_ch      = min_value[cnt];
 
       while (  cnt-- > 0
             && idx < in_data.size())
@@ -229,6 +232,12 @@ static bool decode_utf8(const vector<UINT8> &in_data, deque<int> &out_data)
       if (cnt >= 0)
       {
          // short UTF-8 sequence
+         return(false);
+      }
+
+      if (ch < min_ch)
+      {
+         // overlong form: not valid UTF-8, and it would not be written back as read
          return(false);
       }
       out_data.push_back(ch);
